@@ -1573,6 +1573,7 @@ class WindowFrameAnalyticFunction(AnalyticFunction):
 
         self.frame = frame
         self.bound = (bound, and_bound) if and_bound else bound
+        self._include_over = True
 
     @builder
     def rows(self, bound: Union[str, EdgeT], and_bound: Optional[EdgeT] = None) -> "WindowFrameAnalyticFunction":
